@@ -176,6 +176,12 @@ func genMixedRace(t *rapid.T, w *World, pre *Snapshot, n int) []Op {
 		ops = append(ops, genSequenceRace(t, w, pre, 1)[0])
 		ops[i].N = 1000 + i
 	}
+	// an agent asking for work meanwhile: "nothing is ready" must be true at that moment
+	if n >= 3 && pct(t, 55, "mixed.claim") {
+		ops[2] = Op{N: 1002, Kind: "claim", Agent: oneOf(t, agents, "mixed.claim.agent")}
+	} else if n == 2 && pct(t, 25, "mixed.claim2") {
+		ops[1] = Op{N: 1001, Kind: "claim", Agent: oneOf(t, agents, "mixed.claim.agent")}
+	}
 	return ops
 }
 
@@ -197,13 +203,13 @@ func graphExtra(prop string) func(pre, final *Snapshot, cmds []ConcCmd) []string
 func TestC15Conc(t *testing.T) {
 	runSchedTest(t, schedSpec{prop: "C15", test: "TestC15Conc", genOps: genMixedRace, minN: 2, maxN: 3, extra: graphExtra("C15"),
 		setup: Profile{Name: "two-level-setup", Weights: map[string]int{"new_task": 46, "new_epic": 22, "sequence": 10, "set": 8}, EpicPct: 85, StatePct: 5, ClaimPct: -1, SeqEpicPct: 30},
-		rule:  "a generated two-level store (most tasks inside epics) and 2-3 concurrent `sequence` commands, one linking tasks of two epics and one linking those epics, in drawn directions, parked / resumed by the controller or free-running; oracle: linearizability (a request that closes a waits-for cycle at its position in the serial order must have been rejected) and no waits-for cycle in the final graph; non-trivial = executions overlap and at least one park landed (or free-running)"})
+		rule:  "a generated two-level store (most tasks inside epics) and 2-3 concurrent commands - `sequence` commands, one linking tasks of two epics and one linking those epics, in drawn directions, and in half of the cases a `claim` -, parked / resumed by the controller or free-running; oracle: linearizability (a request that closes a waits-for cycle at its position in the serial order must have been rejected; a claim that says nothing is ready must be true at its position) and no waits-for cycle in the final graph; non-trivial = executions overlap and at least one park landed (or free-running)"})
 }
 
 // ---- C08: the claim race, judged as "claim takes the oldest ready task" ----
 
 func TestC08Conc(t *testing.T) {
-	runSchedTest(t, schedSpec{prop: "C08", test: "TestC08Conc", genOps: genClaimRace, minN: 2, maxN: 3, setup: claimSetup,
+	runSchedTest(t, schedSpec{prop: "C08", test: "TestC08Conc", genOps: genClaimRace, minN: 2, maxN: 3, setup: claimSetup, clockPct: 24,
 		rule: "a generated store and 2-3 concurrent commands - claims (with / without --epic) plus writers that change which task is the oldest ready one (reopen, finish, move, create) - parked / resumed by the controller, biased to the window before the lock is taken; oracle: in the serial order given by commit order every claim returns the oldest ready task of the state at its position, within --epic if given; non-trivial = executions overlap and at least one park landed (or free-running)"})
 }
 
@@ -385,4 +391,16 @@ func TestC17Conc(t *testing.T) {
 
 func TestC09Faults(t *testing.T) {
 	runFaultErrTest(t, "C09", "TestC09Faults", func(rt *rapid.T, w *World, pre *Snapshot) Op { return Op{Kind: "prune_yes", Agent: "pruner"} })
+}
+
+// ---- C18: init next to running commands ----
+
+// TestC18Conc: `init` on an existing store changes nothing - also not the lock other
+// commands are holding. One command is stopped inside its lock section, `init` runs, the
+// other commands run; everything acknowledged must be there afterwards and nobody may get
+// into the lock section meanwhile.
+func TestC18Conc(t *testing.T) {
+	runSchedTest(t, schedSpec{prop: "C18", test: "TestC18Conc", minN: 2, maxN: 3, setup: setupProfile, holderInit: true, mutex: true,
+		kinds: map[string]int{"new_task": 24, "set": 20, "plan": 14, "compact": 14, "claim": 8, "sequence": 8, "prune_yes": 8, "new_epic": 4},
+		rule:  "a generated store and 2-3 concurrent mutating commands (plan and compact - the whole-file rewrites - weighted up) plus an `init` bystander; in four of five controlled cases one command is stopped inside its lock section, `init` runs to completion, then the others run, then the holder goes on; oracle: linearizability of the acknowledged commands (nothing acknowledged is lost, init changes no item) and nobody changes the log while the stopped holder has the flock; non-trivial = executions overlap and at least one park landed (or free-running)"})
 }
